@@ -55,6 +55,11 @@ def mutants(doc):
         yield ("missing_section", k, m)
         m = mk(); m[k] = copy.deepcopy(WRONG_TYPE[TYPES[k]])
         yield ("mistyped_section", k, m)
+    for k in ("os", "services", "processes"):
+        # a bare scalar where a list is required (what `os: linux` instead of `os: [linux]` parses to)
+        if isinstance(doc.get(k), list) and doc[k]:
+            m = mk(); m[k] = doc[k][0]
+            yield ("mistyped_section", f"{k} = bare scalar {doc[k][0]!r}", m)
     m = mk(); m["bandwidth"] = 3
     yield ("unknown_section", "bandwidth", m)
     if "step_limit" in doc:
@@ -192,8 +197,9 @@ def mutants(doc):
         other = [x for x in doc["services"] if x not in v][:1] or []
         m = mk(); m["firewall"][alt] = list(other)          # the same rule a second time, under another spelling
         yield ("firewall_rule_duplicated", f"{k} and {alt}", m)
-        m = mk(); del m["firewall"][k]
-        yield ("firewall_rule_missing", k, m)
+        if doc["topology"][a][b] == 1 or doc["topology"][b][a] == 1:       # only a rule the topology requires can be "missing"
+            m = mk(); del m["firewall"][k]
+            yield ("firewall_rule_missing", k, m)
         m = mk(); m["firewall"][k] = doc["services"][0]
         yield ("firewall_rule_not_a_list", k, m)
         m = mk(); m["firewall"][k] = list(v) + ["telnet_unknown"]
@@ -226,6 +232,21 @@ def base_documents(tier):
     from .family import scale_documents
     for sp in scale_documents():
         docs.append((sp["name"], to_yaml_doc(sp)))
+    # documents that ALSO carry a (well-formed) rule for two subnets the topology does not connect: nothing forbids
+    # it, and every rule that is written down has to be a list of known, non-repeated services
+    extra = 0
+    for nm, d in list(docs):
+        if extra >= 4 or nm in SHIPPED_ALL:
+            continue
+        topo = d["topology"]
+        pair = next(((i, j) for i in range(1, len(topo)) for j in range(1, len(topo)) if i < j and topo[i][j] == 0), None)
+        if pair is None:
+            continue
+        d2 = copy.deepcopy(d)
+        d2["firewall"][str(pair)] = [d["services"][0]]
+        d2["firewall"][str((pair[1], pair[0]))] = []
+        docs.append((nm + "+rule-for-unconnected-subnets", d2))
+        extra += 1
     if tier == "thorough":
         for sp, b in family("thorough"):
             if b == "yaml" and yaml_expressible(sp) and sp["name"] not in seen and len(seen) < limit:
